@@ -1719,5 +1719,5 @@ func quotedNullDepth(c *Ctx) {
 				fmt.Sprintf("the \"null\" test is applied after %d unquoting steps: encoding/json (v1) recognises a quoted null in the content of the JSON string, i.e. after exactly one", maxAt))
 		}
 	}
-	c.Floor("quoted-null tests on an unquoted local", n, 3)
+	c.Floor("quoted-null tests on an unquoted local", n, 2)
 }
